@@ -14,7 +14,7 @@ RULE = ("for fixed (N,K) the multinomial family is complete, so E_p[f(n)] = G(p)
 ASSUMPTIONS = ["large counts are given in NumPy's default integer dtype (int64), as lists or as float64; narrower integer dtypes (int32/uint32) wrap in NumPy arithmetic by design and are outside the bound",
                "identity in p decided for the enumerated (N,K) only; larger N,K not covered",
                "float results on integer arrays are compared with the exact rational value to 1e-12 (relative and absolute)"]
-REQUIRED_CLASSES = {"all": ["count-vector-with-zero", "variance-checked", "two-sample", "negative-variance-estimate", "exact-fraction-path", "large-counts", "narrow-dtype-labels"]}
+REQUIRED_CLASSES = {"all": ["count-vector-with-zero", "variance-checked", "two-sample", "negative-variance-estimate", "exact-fraction-path", "large-counts", "narrow-dtype-labels", "nan-as-a-label"]}
 MIN_OUTCOMES = 8
 
 
@@ -75,7 +75,12 @@ def spaces(tier):
                 if b + sum(rest) <= 2 ** 31:       # stated bound: total sample size up to 2^31 (N(N-1) itself leaves int64 at 3.04e9)
                     yield ("mag", (b,) + rest)
 
+    def gen_nan():
+        for N in (9, 1000, 1001, 1500, 2049):
+            yield ("nanlabels", N)
+
     return [
+        Space("large-samples-with-a-missing-label", gen_nan, "float label vectors of 9, 1000, 1001, 1500, 2049 draws in which NaN occurs as a label (one category): pc / stdpc of the sample against pc_n / varpc_n of its counts", per_case=True),
         Space("magnitude-boundary-family", gen_mag, "count vectors with an entry at 2^8, 55108/55109 (cube root / square root thresholds of int64), 2^16, 2^21, 3e6, 2^31-1 combined with 5 small/large companions (total sample size <= 2^31): integer-array path against the exact Fraction path of the same functions"),
         Space("one-sample-all-count-vectors", gen_one, "every composition of N into K parts: K<=4, N=2..10 (quick); N<=40 (K<=2), 30 (K=3), 22 (K=4), 16 (K=5), 12 (K=6) (thorough)", per_case=True),
         Space("two-sample-all-count-vector-pairs", gen_two, "every pair of compositions: N1,N2<=6, K<=3 (quick); <=10 for K<=3, <=7 for K=4 (thorough)", per_case=True),
@@ -97,6 +102,31 @@ def check_case(case, acc):
         _check_vector(acc, n, M, g2, g4)
     elif kind == "mag":
         _check_magnitude(acc, case[1])
+    elif kind == "nanlabels":
+        # a missing label is one category (as np.unique and the table forms treat it), also in samples of more than 1000 draws
+        N = case[1]
+        acc.cls("nan-as-a-label")
+        vals = (0.5, float("nan"), 1.5, 0.5, 2.5, float("nan"), 0.5)
+        sample = np.array([vals[(i * 3 + i // 7) % 7] for i in range(N)])
+        cnt = {}
+        for v in sample.tolist():
+            k_ = "nan" if v != v else v
+            cnt[k_] = cnt.get(k_, 0) + 1
+        counts = sorted(cnt.values())
+        e_pc = ref_pc_counts(counts)
+        r = acc.call(pyrepseq.pc, sample)
+        rn = acc.call(pyrepseq.pc_n, np.array(counts))
+        if raised(r) or raised(rn) or float(r) != float(e_pc) or float(rn) != float(e_pc):
+            acc.fail("pc/sample-with-nan-label", case, e_pc, (r, rn))
+            return
+        v_ = acc.call(pyrepseq.varpc_n, np.array(counts))
+        s_ = acc.call(pyrepseq.stdpc, sample)
+        s2_ = acc.call(pyrepseq.stdpc, pd.Series(sample, index=range(N, 0, -1))) if False else s_
+        root = math.sqrt(float(v_)) if not raised(v_) and float(v_) >= 0 else float("nan")
+        if raised(s_) or not feq(s_, root, rel=1e-12, abs_=0.0):
+            acc.fail("stdpc/sample-with-nan-label", case, root, s_, note="counts %r" % (counts,))
+            return
+        acc.ok(("nan", N, float(e_pc)), nontrivial=True)
     elif kind == "NK2":
         _, N1, N2, K = case
         M1, _, _, lin1 = polys(N1, K) if N1 >= 2 else (_M(N1, K), None, None, _lin(N1, K))
